@@ -127,6 +127,8 @@ class Renderer(object):
             ty, o = op.split(".")
             if o == "neg":
                 return "(- %s)" % a[0]
+            if o in ("odd", "even", "zero"):
+                return "%s?(%s)" % (o, a[0])
             if o == "not":
                 return "(not %s)" % a[0]
             if o == "tobi":
@@ -204,7 +206,7 @@ class Renderer(object):
         if e == "rset":
             return "%s.f%d := %s" % (self.ex(x["r"]), x["i"], self.ex(x["v"]))
         if e == "mkun":
-            return "([%s]@%s)" % (self.ex(x["v"]), tname(x["t"]))
+            return "([t%d == %s]@%s)" % (x["tag"], self.ex(x["v"]), tname(x["t"]))
         if e == "uis":
             return "(%s case t%d)" % (self.ex(x["u"]), x["tag"])
         if e == "uget":
